@@ -872,6 +872,7 @@ pub fn load_static_config(server: &mut Server, mut client: OptionalClient, path:
                 );
             }
             client.finish_failure(format!("could not generate new config: {config_err}"));
+            server.cancel_task(task_id);
             return;
         }
     };
